@@ -88,3 +88,31 @@ fn roundtrip() {
         if d.serialize_for_net() != enc { witness("re-encoding differs".to_string()); }
     }
 }
+
+/// C02: output / input sums are computed without 64-bit wrap-around: a transaction whose outputs exceed its inputs in
+/// unbounded arithmetic must never end up with total_out <= total_in
+#[test]
+fn fee_sums_do_not_wrap() {
+    let mut rng = Rng::from_env();
+    for round in 0..3000 {
+        let mut tx = Transaction::default();
+        let nin = 1 + rng.below(3); let nout = 1 + rng.below(3);
+        for _ in 0..nin { let mut s = Slip::default(); s.amount = if round % 2 == 0 { rng.below(1000) } else { rng.edge_u64() }; s.public_key = [2; 33]; tx.from.push(s); }
+        for _ in 0..nout { let mut s = Slip::default(); s.amount = rng.edge_u64(); s.public_key = [3; 33]; tx.to.push(s); }
+        let sum_in: u128 = tx.from.iter().map(|s| s.amount as u128).sum();
+        let sum_out: u128 = tx.to.iter().map(|s| s.amount as u128).sum();
+        let desc = format!("inputs {:?} outputs {:?}", tx.from.iter().map(|s| s.amount).collect::<Vec<_>>(), tx.to.iter().map(|s| s.amount).collect::<Vec<_>>());
+        let prev = std::panic::take_hook();
+        std::panic::set_hook(Box::new(|_| {}));
+        let r = std::panic::catch_unwind(move || { let mut t = tx; t.generate_total_fees(0, 0); (t.total_in, t.total_out, t.total_fees) });
+        std::panic::set_hook(prev);
+        match r {
+            Err(_) => witness(format!("Transaction::generate_total_fees panicked (arithmetic overflow; wraps silently in a release build): {}", desc)),
+            Ok((ti, to, tf)) => {
+                // (inputs of an accepted transaction are distinct existing outputs, so their sum is below the supply, far below 2^64)
+                if sum_out > sum_in && sum_in < u64::MAX as u128 && to <= ti { witness(format!("outputs exceed inputs ({} > {}) but total_out={} <= total_in={}: {}", sum_out, sum_in, to, ti, desc)); }
+                if sum_in <= u64::MAX as u128 && sum_out <= u64::MAX as u128 && (ti as u128 != sum_in || to as u128 != sum_out || tf as u128 != sum_in.saturating_sub(sum_out)) { witness(format!("sums wrong: {}", desc)); }
+            }
+        }
+    }
+}
